@@ -27,6 +27,21 @@
 (*               elements), and sort over long arrays with duplicates.      *)
 (*  Mode "ident" identifiers / hash keys / literals / raw strings over keys *)
 (*               that need quoting, escaping, or are non-ASCII.             *)
+(*  Modes "frac", "fracarr", "fracdoc": numbers with a fraction (exact      *)
+(*               decimals, Jmespath.tla NUMBERS).  "frac": every built-in   *)
+(*               x argument tuples over a number alphabet (integers,        *)
+(*               negative / positive fractions, doubles with a zero         *)
+(*               fraction, exponent form), all comparators over all pairs,  *)
+(*               to_number over number-like strings, literals; "fracarr":   *)
+(*               every array of 0..3 (4) such numbers under sum avg max min *)
+(*               sort reverse sort_by max_by min_by map contains ...;       *)
+(*               "fracdoc": the same functions, filters with comparators,   *)
+(*               projections and indexes over documents that hold           *)
+(*               fractional numbers.  W1 = "core" | "full" selects the      *)
+(*               alphabet size, MaxDepth = 2 adds one layer of numeric      *)
+(*               outer wraps (frac, fracdoc); fracarr always runs with      *)
+(*               MaxDepth = 2 (layer 1 = the array literals, layer 2 = the  *)
+(*               calls on them).                                            *)
 (*                                                                          *)
 (* The same runs check the specification's algebraic identities as          *)
 (* invariants (Identities).                                                 *)
@@ -105,14 +120,43 @@ D19 == O1(A, Ar([i \in 1..33 |-> Obj2(JInt(1 + ((i * 3) % 2)), i)]))       \* tw
 D20 == Ar([i \in 1..17 |-> JInt((i * 7) % 5)])
 D21 == O1(A, Ar([i \in 1..40 |-> S(<<97 + ((i * 11) % 4)>>)]))
 D22 == Ar([i \in 1..29 |-> JInt(3 - ((i * i) % 7))])
-Docs == <<D1, D2, D3, D4, D5, D6, D7, D8, D9, D10, D11, D12, D13, D14, D15, D16, D17, D18, D19, D20, D21, D22>>
+\* documents with fractional numbers (written in the text form the implementation is handed: Dc(10, -1) is the double 1.0,
+\* Dc(1, 2) the double 1e2; the evaluator sees their canonical form, DocsN)
+Dc(m, x) == <<"dec", m, x>>
+ObjArr(s) == Ar([i \in 1..Len(s) |-> Obj2(s[i], i)])
+FNums1 == <<Dc(15, Neg(1)), Dc(Neg(25), Neg(2)), JInt(2), Dc(20, Neg(1)), Dc(1, 2), Dc(5, Neg(1)), Dc(Neg(15), Neg(1)), JInt(0), Dc(0, Neg(1)), Dc(25, Neg(1))>>
+D23 == O2(A, Ar(FNums1), B, ObjArr(FNums1))
+FNums2 == <<Dc(25, Neg(2)), Dc(375, Neg(2)), JInt(Neg(2)), Dc(10, Neg(1)), JInt(1), Dc(25, Neg(1)), Dc(250, Neg(2))>>     \* maximum not last, ties, 1.0 and 1
+D24 == Ar(FNums2)
+D25 == O2(A, Ar(<<Dc(25, Neg(1))>>), B, ObjArr(<<Dc(Neg(5), Neg(1))>>))                          \* one element
+D26 == O2(A, Dc(15, Neg(1)), B, Dc(Neg(25), Neg(2)))                                              \* scalars
+FNums5 == <<Dc(1, Neg(1)), Dc(2, Neg(1)), Dc(Neg(7), Neg(1)), Dc(101, Neg(2)), Dc(12, Neg(1)), JInt(1)>>  \* not dyadic: sum / avg are don't-care
+D27 == O2(A, Ar(FNums5), B, ObjArr(FNums5))
+\* strings for to_number: json-numbers and near misses
+T15 == <<49, 46, 53>>
+NumStringsCore == { T15, <<45, 48, 46, 50, 53>>, <<49, 101, 50>>, <<49, 69, 50>>, <<49, 101, 43, 50>>, <<50, 53, 101, 45, 49>>, <<49, 46, 53, 101, 49>>,
+                    <<48, 46, 48>>, <<45, 48>>, <<48>>, <<49, 46, 48>>, <<48, 46, 53, 48>>, <<45, 49>>, <<49, 48, 48>>, <<45, 48, 46, 48>>, <<48, 101, 48>>,
+                    \* not json-numbers
+                    <<46, 53>>, <<53, 46>>, <<48, 49>>, <<43, 49>>, <<32, 49>>, <<49, 32>>, <<48, 120, 49, 48>>, <<97, 98, 99>>, <<>>, <<45>>, <<49, 101>>,
+                    <<49, 46, 101, 50>>, <<73, 110, 102, 105, 110, 105, 116, 121>>, <<78, 97, 78>>, <<110, 97, 110>>, <<105, 110, 102>>, <<45, 48, 49>>,
+                    <<48, 48>>, <<49, 95, 48>>, <<49, 46, 53, 46, 50>>, <<45, 45, 49>>, <<49, 101, 50, 46, 53>>, <<45, 46, 53>>, <<49, 44, 53>>,
+                    <<49, 101, 45>>, <<101, 50>>, <<46>>, <<49, 46, 53, 102>>, <<43, 46, 53>>, <<49, 46, 53, 32>>, <<9, 49, 46, 53>> }
+StrSeq1 == <<T15, <<45, 48, 46, 50, 53>>, <<49, 101, 50>>, <<46, 53>>, <<48, 49>>, <<49, 46, 48>>, <<97, 98, 99>>, <<50, 53, 101, 45, 49>>, <<49, 32>>>>
+D28 == O2(A, Ar([i \in 1..Len(StrSeq1) |-> S(StrSeq1[i])]), B, S(<<50, 46, 53>>))
+D29 == O2(A, Ar(<<Dc(25, Neg(1)), Dc(Neg(25), Neg(1)), Dc(125, Neg(3)), JInt(3), Dc(30, Neg(1)), Dc(Neg(375), Neg(2))>>),
+          B, ObjArr(<<Dc(5, Neg(1)), Dc(5, Neg(1)), Dc(Neg(10), Neg(1)), JInt(Neg(1)), Dc(75, Neg(2))>>))            \* ties at both ends of b
+Docs == <<D1, D2, D3, D4, D5, D6, D7, D8, D9, D10, D11, D12, D13, D14, D15, D16, D17, D18, D19, D20, D21, D22, D23, D24, D25, D26, D27, D28, D29>>
 DocSel == CASE Mode = "wrap" -> <<1, 2, 3, 4, 5, 6, 7, 8>>
             [] Mode = "fn" -> <<1, 3, 4, 5, 6>>
             [] Mode = "slice" -> <<7, 9, 10, 11, 12, 13, 3, 1, 4>>
             [] Mode = "stable" -> <<16, 17, 18, 19, 20, 21, 22>>
             [] Mode = "cmp" -> <<15, 6>>
             [] Mode = "ident" -> <<14, 1>>
+            [] Mode \in {"frac", "fracarr"} -> <<26>>
+            [] Mode = "fracdoc" -> <<23, 24, 25, 26, 27, 28, 29, 7>>
             [] OTHER -> <<>>
+\* the documents as the evaluator sees them (canonical numbers)
+DocsN == [i \in 1..Len(Docs) |-> NormV(Docs[i])]
 
 -----------------------------------------------------------------------------
 (* Appending a postfix to an expression, as appending text to the           *)
@@ -263,16 +307,116 @@ IdentCases(u) == { <<"fld", k>> : k \in IdentKeys } \cup { <<"sub", Fa, <<"fld",
                      <<"vpr", Fa, Fn("length", <<Cur>>)>>, Fn("sort", <<Fn("keys", <<Fa>>)>>), Fn("reverse", <<<<"fld", KAstral>>>>),
                      Fn("sort", <<Fn("values", <<Fa>>)>>), Fn("max", <<Fn("keys", <<Fa>>)>>), Fn("join", <<Raw(KAcute), Fn("sort", <<Fn("keys", <<Fa>>)>>)>>) }
 
+(* frac modes.  Number alphabets: NumsA (scalar arguments, comparator operands), NumsS (pairs), NumsArr (array elements;  *)
+(* all dyadic so that sums and averages are decided; 2 and 2.0 are the same number in two storage forms).               *)
+FFull == W1 # "core"
+NumsA(u) == { JInt(Neg(2)), Dc(Neg(15), Neg(1)), JInt(Neg(1)), Dc(Neg(5), Neg(1)), Dc(Neg(25), Neg(2)), JInt(0), Dc(25, Neg(2)), Dc(5, Neg(1)), JInt(1),
+              Dc(10, Neg(1)), Dc(15, Neg(1)), JInt(2), Dc(20, Neg(1)), Dc(25, Neg(1)), Dc(375, Neg(2)), Dc(1, 2), Dc(12, Neg(1)), Dc(Neg(7), Neg(1)) }
+            \cup (IF FFull THEN { Dc(1, Neg(1)), Dc(101, Neg(2)), Dc(0, Neg(1)), Dc(Neg(10), Neg(1)), JInt(3), Dc(275, Neg(2)), Dc(15, 0), Dc(250, Neg(2)),
+                                  Dc(125, Neg(3)), Dc(Neg(375), Neg(2)), JInt(100), Dc(Neg(20), Neg(1)), Dc(9999, Neg(4)), Dc(Neg(1), Neg(3)), Dc(15, 1), Dc(1000, Neg(1)) }
+                  ELSE {})
+NumsS(u) == { Dc(Neg(15), Neg(1)), JInt(Neg(1)), Dc(Neg(25), Neg(2)), JInt(0), Dc(5, Neg(1)), JInt(2), Dc(20, Neg(1)), Dc(25, Neg(1)) }
+NumsArr(u) == { Dc(Neg(15), Neg(1)), Dc(25, Neg(2)), JInt(2), Dc(20, Neg(1)), Dc(25, Neg(1)) }
+              \cup (IF FFull THEN { Dc(Neg(5), Neg(1)), JInt(0), Dc(375, Neg(2)) } ELSE {})
+NonNums == { JNull, JBool(TRUE), S(T15), S(<<>>), EmptyArr, EmptyObj }
+NumFns1 == {"abs", "avg", "ceil", "floor", "max", "min", "sum", "sort", "reverse", "length", "to_number", "to_string", "to_array", "type", "not_null"}
+FAbs == Fn("abs", <<Cur>>)
+
+FracCases(u) ==
+  LET NA == NumsA(0)  NS == NumsS(0) IN
+  \* every built-in (and an unknown name) x number arguments
+     { L(x) : x \in NA } \cup { Fn(n, <<L(x)>>) : n \in AllFns, x \in NA }
+  \cup { Fn(n, <<L(x), L(y)>>) : n \in AllFns, x \in NS, y \in NS }
+  \cup { Fn(n, <<L(x), L(y)>>) : n \in AllFns, x \in NS, y \in NonNums } \cup { Fn(n, <<L(y), L(x)>>) : n \in AllFns, x \in NS, y \in NonNums }
+  \cup { Fn(n, <<Ref(Cur), L(x)>>) : n \in AllFns, x \in NS } \cup { Fn(n, <<L(x), Ref(Cur)>>) : n \in AllFns, x \in NS }
+  \cup { Fn(n, <<L(Ar(<<x, y>>))>>) : n \in AllFns, x \in NS, y \in NS }
+  \cup { Fn(n, <<L(Ar(<<x, y>>))>>) : n \in NumFns1, x \in NS, y \in NonNums }
+  \cup { Fn(n, <<L(x), L(y), L(JNull)>>) : n \in AllFns, x \in {Dc(15, Neg(1))}, y \in NS }
+  \* comparators: all pairs of numbers; a number against every other type; deep equality by value
+  \cup { Cmp(op, L(x), L(y)) : op \in AllOps, x \in NA, y \in NA }
+  \cup { Cmp(op, L(x), L(y)) : op \in AllOps, x \in NS, y \in NonNums } \cup { Cmp(op, L(y), L(x)) : op \in AllOps, x \in NS, y \in NonNums }
+  \cup { Cmp(op, L(Ar(<<x>>)), L(Ar(<<y>>))) : op \in AllOps, x \in NS, y \in NS }
+  \cup { Cmp(op, L(O1(A, x)), L(O1(A, y))) : op \in {"eq", "ne"}, x \in NS, y \in NS }
+  \cup { Cmp(op, L(x), Fa) : op \in AllOps, x \in NA } \cup { Cmp(op, Fb, L(x)) : op \in AllOps, x \in NA }
+  \cup { Cmp(op, L(x), Fn(n, <<L(y)>>)) : op \in {"eq", "lt", "ge"}, n \in {"abs", "ceil", "floor"}, x \in NS, y \in NS }
+  \* truthiness: every number is true-like, 0 and 0.0 included
+  \cup { Not(L(x)) : x \in NA } \cup { <<"or", L(x), L(y)>> : x \in NS, y \in NS } \cup { <<"and", L(x), L(y)>> : x \in NS, y \in NS }
+  \* to_number over strings (raw string and JSON string literal); back and forth with to_string
+  \cup { Fn("to_number", <<Raw(t)>>) : t \in NumStringsCore } \cup { Fn("to_number", <<L(S(t))>>) : t \in NumStringsCore }
+  \cup { Fn("abs", <<Fn("to_number", <<Raw(t)>>)>>) : t \in NumStringsCore } \cup { Cmp("eq", Fn("to_number", <<Raw(t)>>), L(Dc(15, Neg(1)))) : t \in NumStringsCore }
+  \cup { Fn("to_number", <<Fn("to_string", <<L(x)>>)>>) : x \in NA } \cup { Fn("to_string", <<Fn("to_number", <<Raw(t)>>)>>) : t \in NumStringsCore }
+  \cup { Fn("length", <<Fn("to_string", <<L(x)>>)>>) : x \in NA } \cup { Fn("join", <<Raw(<<124>>), <<"mls", <<Fn("to_string", <<L(x)>>), Fn("to_string", <<L(y)>>)>>>>>>) : x \in NS, y \in NS }
+  \* literals: in containers, multi-selects, indexes, pipes
+  \cup { L(Ar(<<x, O1(A, y)>>)) : x \in NS, y \in NS } \cup { <<"idx", L(Ar(<<x, y>>)), 1>> : x \in NS, y \in NS }
+  \cup { <<"mls", <<L(x), Fa, L(y)>>>> : x \in NS, y \in NS } \cup { <<"mhs", <<<<A, L(x)>>, <<B, Fb>>>>>> : x \in NA }
+  \cup { <<"sub", L(O1(A, x)), Fa>> : x \in NA } \cup { <<"pipe", Fa, Fn(n, <<Cur>>)>> : n \in AllFns } \cup { <<"pipe", Fb, Fn(n, <<Cur>>)>> : n \in AllFns }
+  \cup { Fn(n, <<<<"mls", <<Fa, Fb>>>>>>) : n \in AllFns } \cup { Fn(n, <<<<"mls", <<Fa, L(x)>>>>>>) : n \in NumFns1, x \in NA }
+  \cup { Fn("contains", <<L(Ar(<<x, S(T15)>>)), L(y)>>) : x \in NA, y \in NS }
+
+\* outer numeric wraps (second layer of the frac / fracdoc modes)
+FracOuter(x) == { y \in { Fn("abs", <<x>>), Fn("ceil", <<x>>), Fn("floor", <<x>>), Fn("to_string", <<x>>), Fn("to_number", <<x>>), Fn("type", <<x>>),
+                          Fn("sum", <<Fn("to_array", <<x>>)>>), Fn("avg", <<Fn("to_array", <<x>>)>>), Fn("max", <<<<"mls", <<x, L(Dc(15, Neg(1)))>>>>>>),
+                          Fn("min", <<<<"mls", <<L(Dc(Neg(25), Neg(2))), x>>>>>>), Fn("sum", <<<<"mls", <<x, L(Dc(5, Neg(1)))>>>>>>),
+                          Fn("sort", <<<<"mls", <<L(Dc(25, Neg(2))), x, I(1)>>>>>>),
+                          Cmp("lt", x, L(Dc(15, Neg(1)))), Cmp("ge", L(Dc(20, Neg(1))), x), Cmp("eq", x, I(2)), Cmp("ne", L(Dc(Neg(15), Neg(1))), x),
+                          <<"pipe", x, FAbs>>, <<"idx", x, 0>>, <<"idx", x, Neg(1)>>, Fn("not_null", <<x, L(Dc(5, Neg(1)))>>), Fn("sort", <<x>>), Fn("sum", <<x>>),
+                          Fn("avg", <<x>>), Fn("max", <<x>>), Fn("min", <<x>>), Fn("reverse", <<x>>), <<"mls", <<x, x>>>>,
+                          <<"fil", x, Cmp("gt", Cur, L(Dc(5, Neg(1)))), Cur>>, <<"prj", x, Fn("ceil", <<Cur>>)>>, Fn("map", <<Ref(Fn("floor", <<Cur>>)), x>>) } : Gen(y) }
+
+(* fracarr mode: every array of 0..3 numbers (0..4 when full) *)
+NumSeqs(n) == UNION { [1..m -> NumsArr(0)] : m \in 0..n }
+ArrFns2(a) == { Fn("sort_by", <<a, Ref(Cur)>>), Fn("max_by", <<a, Ref(Cur)>>), Fn("min_by", <<a, Ref(Cur)>>), Fn("sort_by", <<a, Ref(FAbs)>>),
+                Fn("max_by", <<a, Ref(FAbs)>>), Fn("min_by", <<a, Ref(Fn("ceil", <<Cur>>))>>), Fn("map", <<Ref(Fn("ceil", <<Cur>>)), a>>),
+                Fn("map", <<Ref(Fn("floor", <<Cur>>)), a>>), Fn("map", <<Ref(FAbs), a>>), Fn("map", <<Ref(Fn("to_string", <<Cur>>)), a>>),
+                Fn("contains", <<a, I(2)>>), Fn("contains", <<a, L(Dc(20, Neg(1)))>>), Fn("contains", <<a, L(Dc(250, Neg(2)))>>), Fn("contains", <<a, L(Dc(Neg(15), Neg(1)))>>),
+                <<"fil", a, Cmp("lt", Cur, L(Dc(20, Neg(1)))), Cur>>, <<"fil", a, Cmp("ge", Cur, L(Dc(25, Neg(2)))), Cur>>, <<"fil", a, Cmp("eq", Cur, I(2)), Cur>>,
+                <<"idx", Fn("sort", <<a>>), Neg(1)>>, Fn("sum", <<Fn("sort", <<a>>)>>), Fn("avg", <<Fn("reverse", <<a>>)>>), Fn("abs", <<Fn("sum", <<a>>)>>),
+                Fn("ceil", <<Fn("avg", <<a>>)>>), Fn("floor", <<Fn("avg", <<a>>)>>), Fn("ceil", <<Fn("min", <<a>>)>>), Fn("floor", <<Fn("max", <<a>>)>>),
+                Fn("to_string", <<Fn("avg", <<a>>)>>), Fn("to_string", <<Fn("sum", <<a>>)>>), Cmp("le", Fn("min", <<a>>), Fn("avg", <<a>>)),
+                Cmp("eq", Fn("sum", <<a>>), Fn("sum", <<Fn("reverse", <<a>>)>>)) }
+ObjFns(b) == { <<"prj", Fn("sort_by", <<b, Ref(FK)>>), FID>>, Fn("max_by", <<b, Ref(FK)>>), <<"sub", Fn("min_by", <<b, Ref(FK)>>), FID>>,
+               <<"prj", Fn("sort_by", <<b, Ref(Fn("abs", <<FK>>))>>), FID>>, <<"fil", b, Cmp("gt", FK, L(Dc(5, Neg(1)))), FID>>,
+               Fn("sum", <<<<"prj", b, FK>>>>), Fn("avg", <<<<"prj", b, FK>>>>), Fn("max", <<<<"prj", b, FK>>>>) }
+\* first layer: the array literals themselves; second layer (MaxDepth = 2; spread over the TLC workers): the calls on each
+FracArrCases(u) == { L(Ar(q)) : q \in NumSeqs(IF FFull THEN 4 ELSE 3) }
+FracArrWraps(a) == LET q == a[2][2] IN
+                   { y \in { Fn(n, <<a>>) : n \in (IF Len(q) <= 2 THEN AllFns ELSE NumFns1) } \cup (IF Len(q) <= 3 THEN ArrFns2(a) ELSE {})
+                            \cup (IF Len(q) >= 1 /\ Len(q) <= 3 THEN ObjFns(L(ObjArr(q))) ELSE {}) : Gen(y) }
+
+(* fracdoc mode: documents D23..D29 *)
+BK == <<"prj", Fb, FK>>
+DocSubjects == { Fa, Fb, Cur, BK, <<"slc", Fa, Sl(N(1), Ab, Ab), Cur>>, Fn("reverse", <<Fa>>), <<"slc", Cur, Sl(Ab, Ab, N(Neg(1))), Cur>>, <<"mls", <<Fa, Fb>>>> }
+FracDocCases(u) ==
+  LET NS == NumsS(0) IN
+     { Fn(n, <<x>>) : n \in AllFns, x \in DocSubjects }
+  \cup UNION { ArrFns2(x) : x \in {Fa, Cur, BK} } \cup UNION { ObjFns(x) : x \in {Fb, Cur} }
+  \cup { <<"fil", x, Cmp(op, Cur, L(y)), Cur>> : x \in {Fa, Cur}, op \in AllOps, y \in NS }
+  \cup { <<"fil", x, Cmp(op, L(y), Cur), Cur>> : x \in {Fa, Cur}, op \in AllOps, y \in NS }
+  \cup { <<"fil", Fb, Cmp(op, FK, L(y)), FID>> : op \in AllOps, y \in NS } \cup { <<"fil", Fb, Cmp(op, L(y), FK), Cur>> : op \in AllOps, y \in NS }
+  \cup { <<"fil", Fb, <<"and", Cmp("gt", FK, L(x)), Cmp("le", FK, L(y))>>, FID>> : x \in NS, y \in NS }
+  \cup { <<"fil", Fb, Cmp(op, FK, FID), FID>> : op \in AllOps } \cup { <<"fil", Fa, Cmp(op, Cur, Fn(n, <<Cur>>)), Cur>> : op \in AllOps, n \in {"abs", "ceil", "floor"} }
+  \cup { <<"prj", x, Fn(n, <<Cur>>)>> : x \in {Fa, Cur, BK}, n \in NumFns1 } \cup { Fn("map", <<Ref(Fn(n, <<Cur>>)), x>>) : x \in {Fa, Cur}, n \in NumFns1 }
+  \cup { <<"idx", x, i>> : x \in {Fa, Cur}, i \in {0, 1, 2, 3, 4, Neg(1), Neg(2)} } \cup { Fn(n, <<<<"idx", Fa, i>>>>) : n \in NumFns1, i \in {0, 1, 3, 6, Neg(1)} }
+  \cup { Cmp(op, x, y) : op \in AllOps, x \in {Fa, Fb, <<"idx", Fa, 0>>, <<"idx", Fa, 2>>}, y \in {Fa, Fb, <<"idx", Fa, 1>>, <<"idx", Fa, 3>>, L(Dc(15, Neg(1)))} }
+  \cup { Fn("contains", <<x, L(y)>>) : x \in {Fa, Cur}, y \in NS \cup {Dc(150, Neg(2)), Dc(250, Neg(2)), JInt(100), S(T15)} }
+  \cup { Fn(n, <<<<"mls", <<Fa, Fb, L(y)>>>>>>) : n \in NumFns1, y \in NS }
+  \cup { Cur, Fa, Fb, BK, <<"flt", Cur, Cur>>, <<"vpr", Cur, Cur>>, <<"mhs", <<<<A, Fn("sum", <<Fa>>)>>, <<B, Fn("avg", <<Fa>>)>>>>>> }
+
 -----------------------------------------------------------------------------
 First == CASE Mode = "wrap" -> Bases [] Mode = "fn" -> FnCases(0) [] Mode = "slice" -> SliceCases(0) [] Mode = "cmp" -> CmpCases(0)
            [] Mode = "ident" -> IdentCases(0) [] Mode = "stable" -> StableCases(0) [] Mode = "docs" -> { I(i) : i \in 1..Len(Docs) }
+           [] Mode = "frac" -> FracCases(0) [] Mode = "fracarr" -> FracArrCases(0) [] Mode = "fracdoc" -> FracDocCases(0)
 Init == e = Cur /\ depth = 0
 Next == \/ /\ depth = 0 /\ depth' = 1 /\ e' \in { x \in First : Gen(x) }
         \/ /\ depth >= 1 /\ depth < MaxDepth /\ depth' = depth + 1
            /\ CASE Mode = "wrap" -> e' \in Wraps(e)
                 [] Mode = "fn" -> e' \in FnOuter(e)
+                [] Mode \in {"frac", "fracdoc"} -> e' \in FracOuter(e)
+                [] Mode = "fracarr" -> e' \in FracArrWraps(e)
                 [] OTHER -> FALSE
 View == e
+RECURSIVE UsesFn(_, _)
+UsesFn(x, n) == (x[1] = "fn" /\ x[2] = n) \/ \E i \in 1..Len(Children(x)) : UsesFn(Children(x)[i], n)
 
 Enc(r) == IF r[1] = "err" THEN <<"e", r[2]>> ELSE IF r[1] = "dc" THEN <<"dc", r[2]>> ELSE <<"v", Wire(r)>>
 \* prediction: the specification, strictly (xf = {}), under both member orders when the order can matter
@@ -285,10 +429,10 @@ DevsFor(x, d, ord) == LET strict == Ev(x, d, Env(ord, {})) IN
                       ELSE LET s == { n \in ValueDevs : Ev(x, d, Env(ord, {n})) # strict } IN IF s = {} THEN ValueDevs ELSE s
 Devs(x, d, uo, may, shape) == shape \cup (IF may THEN DevsFor(x, d, "asc") \cup (IF uo THEN DevsFor(x, d, "desc") ELSE {}) ELSE {})
 CaseRec == LET uo == UsesOrder(e)
-               may == ValueDevs # {} /\ MayDeviate(e)
+               may == ValueDevs # {} /\ (MayDeviate(e) \/ ("to_number-non-json-number" \in ValueDevs /\ UsesFn(e, "to_number")))
                shape == { n \in KnownDeviations \cap ShapeDeviationNames : ShapeDeviation(e, {n}) }
-               base == [e |-> Show(e), ds |-> DocSel, r |-> [i \in 1..Len(DocSel) |-> Res(e, Docs[DocSel[i]], uo)], se |-> StaticErr(e),
-                        dev |-> [i \in 1..Len(DocSel) |-> SetToSeq(Devs(e, Docs[DocSel[i]], uo, may, shape))]]
+               base == [e |-> Show(e), ds |-> DocSel, r |-> [i \in 1..Len(DocSel) |-> Res(e, DocsN[DocSel[i]], uo)], se |-> StaticErr(e),
+                        dev |-> [i \in 1..Len(DocSel) |-> SetToSeq(Devs(e, DocsN[DocSel[i]], uo, may, shape))]]
            IN IF EmitAst THEN [e |-> base.e, ds |-> base.ds, r |-> base.r, se |-> base.se, dev |-> base.dev, ast |-> AstWire(e)] ELSE base
 Emit == IF depth = 0 THEN TRUE
         ELSE IF Mode = "docs" THEN PrintT(ToJson([doc |-> e[2][2], d |-> Wire(Docs[e[2][2]])]))
@@ -334,6 +478,27 @@ ValueLaws(R) ==
        /\ E1(Cmp("eq", Cur, Cur), R) = JBool(TRUE) /\ E1(Cmp("ne", Cur, Cur), R) = JBool(FALSE)
        /\ E1(Fn("not_null", <<Cur, I(1)>>), R) = (IF R[1] = "null" THEN JInt(1) ELSE R)
        /\ E1(Fn("type", <<Cur>>), R)[1] = "str"
+\* numbers: results are canonical; floor(x) <= x <= ceil(x), both integers, equal iff x is one; abs(x) is x or its negative and
+\* not negative; a one-element sum / avg / max / min is the element; to_number undoes to_string; trichotomy against 1.5;
+\* sum is order-independent; avg * length = sum and min <= avg <= max
+One(x) == <<"mls", <<x>>>>
+NumLaws(R) ==
+  /\ IsNum(R) =>
+       LET fl == E1(Fn("floor", <<Cur>>), R)  ce == E1(Fn("ceil", <<Cur>>), R)  ab == E1(FAbs, R)
+           back == E1(Fn("to_number", <<Fn("to_string", <<Cur>>)>>), R) IN
+       /\ (R[1] = "dec" => R[3] < 0 /\ (AbsInt(R[2]) % 10) # 0)
+       /\ fl[1] = "int" /\ ce[1] = "int" /\ ~NumLess(R, fl) /\ ~NumLess(ce, R)
+       /\ ce[2] - fl[2] = (IF R[1] = "int" THEN 0 ELSE 1)
+       /\ ~NumLess(ab, JInt(0)) /\ (ab = R \/ NumAdd(ab, R) = JInt(0)) /\ E1(FAbs, ab) = ab
+       /\ E1(Fn("max", <<One(Cur)>>), R) = R /\ E1(Fn("min", <<One(Cur)>>), R) = R
+       /\ (BinExact(R) => E1(Fn("sum", <<One(Cur)>>), R) = R /\ E1(Fn("avg", <<One(Cur)>>), R) = R)
+       /\ (Abn(back) \/ back = R)
+       /\ Cardinality({ op \in {"lt", "eq", "gt"} : E1(Cmp(op, Cur, L(Dc(15, Neg(1)))), R) = JBool(TRUE) }) = 1
+       /\ E1(Cmp("le", Cur, L(Dc(15, Neg(1)))), R) = JBool(~NumLess(JDec(15, Neg(1)), R))
+  /\ (IsArrV(R) /\ R[2] # <<>> /\ AllNum(R[2]) /\ AllBinExact(R[2])) =>
+       LET sm == E1(Fn("sum", <<Cur>>), R)  av == E1(Fn("avg", <<Cur>>), R)  mx == E1(Fn("max", <<Cur>>), R)  mn == E1(Fn("min", <<Cur>>), R) IN
+       /\ E1(Fn("sum", <<Fn("reverse", <<Cur>>)>>), R) = sm
+       /\ (Abn(av) \/ (NumMulNat(av, Len(R[2])) = sm /\ ~NumLess(av, mn) /\ ~NumLess(mx, av)))
 ExprLaws(x, d) ==
   \* a pipe and a sub-expression agree when the left side is not an open projection
   /\ (x[1] = "sub" => E1(<<"pipe", x[2], x[3]>>, d) = E1(x, d))
@@ -357,6 +522,6 @@ StableLaw(d) == LET arr == IF IsArrV(d) THEN d ELSE E1(Fa, d)
                           \/ VLess(x[KK], y[KK])
                           \/ (x[KK] = y[KK] /\ x[KID][2] < y[KID][2])
 Identities == depth >= 1 /\ Mode # "docs" =>
-  /\ \A i \in 1..Len(DocSel) : LET d == Docs[DocSel[i]]  R == E1(e, d) IN ExprLaws(e, d) /\ (Abn(R) \/ ValueLaws(R))
-  /\ (Mode = "stable" => \A i \in 1..Len(DocSel) : StableLaw(Docs[DocSel[i]]))
+  /\ \A i \in 1..Len(DocSel) : LET d == DocsN[DocSel[i]]  R == E1(e, d) IN ExprLaws(e, d) /\ (Abn(R) \/ (ValueLaws(R) /\ NumLaws(R)))
+  /\ (Mode = "stable" => \A i \in 1..Len(DocSel) : StableLaw(DocsN[DocSel[i]]))
 =============================================================================
